@@ -16,7 +16,11 @@ func (i *Item) DedupeItems() error {
 			continue
 		}
 		if existing, ok := urls[node.url.String()]; ok {
-			if existing.status != ItemCompleted && !existing.IsSeed() && node.status == ItemCompleted { // Keep the completed item
+			// Keep the completed item. Failing that, keep the item that already went through the
+			// pipeline rather than a fresh duplicate: the fresh one is a leaf, whereas removing the
+			// processed one would detach its children (losing their URLs) and fetch its URL twice.
+			if existing.status != ItemCompleted && !existing.IsSeed() &&
+				(node.status == ItemCompleted || (existing.status == ItemFresh && node.status != ItemFresh)) {
 				existing.parent.RemoveChild(existing)
 				urls[node.url.String()] = node
 			} else {
